@@ -2,6 +2,7 @@ package props
 
 import (
 	"context"
+	"encoding/json"
 	"fmt"
 	"os"
 	"path/filepath"
@@ -211,8 +212,10 @@ func freshD(d bson.D) bson.D {
 // callRecord remembers the argument objects of a call to check that the call
 // did not modify them and to scribble over them afterwards.
 type callRecord struct {
-	args   []interface{}
-	before [][]byte
+	args       []interface{}
+	before     [][]byte
+	opts       []interface{}
+	optsBefore []string
 }
 
 func (c *callRecord) arg(v interface{}) interface{} {
@@ -229,7 +232,20 @@ func (c *callRecord) argD(d bson.D) bson.D {
 	return d
 }
 
+// opt records an options object handed to the call (by pointer); its JSON
+// rendering (pointer fields dereferenced) must be the same after the call.
+func (c *callRecord) opt(o interface{}) {
+	b, _ := json.Marshal(o)
+	c.opts = append(c.opts, o)
+	c.optsBefore = append(c.optsBefore, string(b))
+}
+
 func (c *callRecord) check() string {
+	for i, o := range c.opts {
+		if b, _ := json.Marshal(o); string(b) != c.optsBefore[i] {
+			return fmt.Sprintf("the call modified the options object it was given: %s -> %s", c.optsBefore[i], b)
+		}
+	}
 	for i, a := range c.args {
 		if string(marshal(bson.D{{Key: "v", Value: a}})) != string(c.before[i]) {
 			return fmt.Sprintf("the call modified its argument %s", show(a))
@@ -682,6 +698,7 @@ func indexModel(m bson.D, rec *callRecord) mongo.IndexModel {
 	if n := asS(getD(m, "name")); n != "" {
 		io.SetName(n)
 	}
+	rec.opt(io)
 	return mongo.IndexModel{Keys: rec.argD(freshD(asD(getD(m, "keys")))), Options: io}
 }
 
